@@ -27,3 +27,40 @@ def register(R):
         ],
         native=False,
     )
+
+
+def register_render_lines(R):
+    R.record("ConsoleOptions", [("max_width", "int"), ("min_width", "int")], pyclass="rich.console.ConsoleOptions")
+    R.record("ConsoleRL", [("_dummy", "int")], pyclass="rich.console.Console", mutable=True)
+    R.contract("rich.console", "Console.options", serves=["C01", "C08", "C13"], params={"self": "ConsoleRL"}, returns="ConsoleOptions",
+               ensures=["result.max_width >= 0"],
+               trusted="the console's default options: some ConsoleOptions with a non-negative width (terminal size)")
+    R.contract("rich.console", "Console.render", serves=["C01", "C08", "C13"],
+               params={"self": "ConsoleRL", "renderable": "opaque:Renderable", "options": "ConsoleOptions"}, returns="list[Segment]",
+               raises={"BaseException": "*"},
+               trusted="ANY list of segments may come out of rendering an arbitrary renderable (havoc: nothing is assumed about widths, newlines or styles); it may raise")
+    R.contract("rich.segment", "Segment.apply_style", serves=["C01", "C08", "C13"],
+               params={"segments": "list[Segment]", "style": "Optional[Style]", "post_style": "Optional[Style]"}, returns="list[Segment]",
+               trusted="returns some list of segments (havoc: the width statement below does not depend on what apply_style does)")
+    # Rectangles by construction: whatever the child renders, render_lines returns lines of exactly
+    # max_width cells when padding and at most max_width otherwise (DESIGN section 8, shared spine)
+    R.contract(
+        "rich.console", "Console.render_lines", serves=["C01", "C08", "C13"],
+        params={"self": "ConsoleRL", "renderable": "opaque:Renderable", "options": "Optional[ConsoleOptions]", "style": "Optional[Style]", "pad": "bool"},
+        returns="list[list[Segment]]",
+        requires=["implies(options is not None, options.max_width >= 0)", "width_of(10) == 0"],
+        raises={"BaseException": "*"},
+        ensures=[
+            "implies(options is not None, all(line_cells(result[k]) <= options.max_width for k in range(len(result))))",
+            "implies(options is not None and pad, all(line_cells(result[k]) == options.max_width for k in range(len(result))))",
+        ],
+        native=False,
+    )
+
+
+_c0 = register
+
+
+def register(R):
+    _c0(R)
+    register_render_lines(R)
